@@ -292,9 +292,10 @@ func singleStore(a *ssa.Alloc) ssa.Value {
 				val = s.Val
 			}
 		case *ssa.UnOp, *ssa.DebugRef:
-		case *ssa.FieldAddr, *ssa.IndexAddr:
-			// fields of the variable are read or updated in place: the variable is
-			// still the one initialised by the single whole-value store
+		case *ssa.FieldAddr, *ssa.IndexAddr, *ssa.Slice:
+			// fields / elements of the variable are read or updated in place, or the
+			// array variable is sliced: the variable is still the one initialised by
+			// the single whole-value store
 		case *ssa.MakeClosure:
 			// captured by a closure: still a single-assignment variable when the
 			// closure never stores to the variable itself
